@@ -157,7 +157,7 @@ def _c12_job(zp, digits=None, v4=False, solver="kissat", core=False):
         id="C12.roundtrip.zp%02x%s%s%s" % (zp, "m" if v4 else "", (".d%d" % digits) if digits else ".full", ".core" if core else ""), prop="C12",
         cls="width-complete", bound="8 groups / 40 text bytes (code constants)",
         srcs=MISC_SRCS, stubs=MISC_STUBS, harness="harness/h_misc.c", entry="h_ntop_roundtrip", defines=d,
-        checks=["ptr", "ovf", "shift"], solver=solver, unwind_rules=MISC_UNWIND, unwind_rules_optional=True,
+        checks=["ptr", "shift"], solver=solver, unwind_rules=MISC_UNWIND, unwind_rules_optional=True,
         cbmc=["--unwind", "9", "--unwinding-assertions", "--object-bits", "12"], functions=["irc_ntop", "irc_pton"],
         replay=NATIVE_MISC2, timeout=3000, mem=14, cost=(100 if not digits else 1) * (5 if is4 else 1))
     if is4:
@@ -183,23 +183,20 @@ def _c12_shards():
 
 
 def _c12_jobs(tier, seed):
-    import random
     sh = _c12_shards()
-    sv = os.environ.get("C12SOLVER", "kissat")
     if tier == "quick":
-        # boundary shards always (IPv4 forms and their IPv6 neighbours, no/one/all zero groups,
-        # leading/trailing/two-run patterns), the rest of the budget drawn by VERIF_SEED
+        # one wave of 16 boundary shards (IPv4 forms and their IPv6 look-alikes, no / one / all zero
+        # groups, leading / trailing / split runs), digit-length class per shard rotated by VERIF_SEED;
+        # core clauses only (fits, no leading ':', own parser reads the same address back)
         fixed = [(0x00, False), (0xff, False), (0x01, False), (0x80, False), (0x7f, False), (0xfe, False),
-                 (0x1f, False), (0x1f, True), (0x9f, False), (0x9f, True), (0x3f, False), (0xbf, False),
-                 (0x0f, False), (0x8f, False), (0x2a, False), (0x41, False), (0x66, False), (0x0c, False),
-                 (0x5f, False), (0xdf, False), (0x3e, False), (0x7e, False), (0xc3, False), (0x18, False)]
-        rest = [x for x in sh if x not in fixed]
-        rnd = random.Random(seed)
-        pick = fixed + rnd.sample(rest, 40)
-        if os.environ.get("C12TEST"):
-            return [_c12_job(zp, 1 + zp % 4, v4, solver="minisat", core=True) for zp, v4 in fixed]
-        return [_c12_job(zp, None, v4, solver=sv) for zp, v4 in pick]
-    return [_c12_job(zp, None, v4, solver=sv) for zp, v4 in sh]
+                 (0x1f, False), (0x1f, True), (0x3f, False), (0xbf, False), (0x0f, False), (0x8f, False),
+                 (0x2a, False), (0x41, False), (0x66, False), (0x18, False)]
+        out = []
+        for zp, v4 in fixed:
+            lookalike = (zp & 0x0f) == 0x0f
+            out.append(_c12_job(zp, 4 if lookalike else 1 + (zp + seed) % 4, v4, solver="minisat", core=True))
+        return out
+    return [_c12_job(zp, None, v4, solver=os.environ.get("C12SOLVER", "kissat")) for zp, v4 in sh]
 
 
 GENERATORS.append(_c12_jobs)
@@ -266,3 +263,11 @@ IJ("C10.parse_disconnect", "C10", "h_parse_registered", ["iauth_send"] + SETM, a
    extra_props=("C01",), cbmc=TABLE_UNW)
 IJ("C10.parse_new_client", "C10", "h_parse_new_client", ["iauth_send"] + SETM, assumptions=SET_ASSUME, functions=["parse_new_client", "iauth_req_cleanup"],
    extra_props=("C01", "C04"), cbmc=TABLE_UNW, timeout=1500, defines=["SET_MODEL_MAX=3"])
+
+XQ_CALLEES = ["iauth_validate_request", "iauth_routing", "iauth_kill", "iauth_challenge", "iauth_user_mode", "iauth_check_request",
+              "iauth_x_query", "iauth_send"] + SETM
+XQ_UNW = ["--unwind", "5", "--unwindset", "bytes_eq.0:513,strcmp.0:5,strncmp.0:8,memcmp.0:70,account_is.0:66,iauth_xquery_set_account.0:66,iauth_xquery_set_account.1:67,memset.0:60"]
+PROPS["C04"] = dict(level="proof", explanation="reply routing: validate/routing round trip and the empty frame of non-awaited replies")
+PROPS["C05"] = dict(level="proof", explanation="verdict content: per reply kind postconditions of the reply handler and of iauth_accept")
+IJ("C03.xq_x_reply", "C03", "h_xq_x_reply", XQ_CALLEES, harness="harness/h_iauth_xq.c", functions=["iauth_xquery_x_reply", "iauth_xquery_x_unlinked", "iauth_xquery_set_account", "iauth_xquery_unref"],
+   extra_props=("C02", "C04", "C05"), cbmc=XQ_UNW, assumptions=SET_ASSUME, bound="service table of 3 slots, names of <= 2 bytes, reply text <= 39 bytes", cls="bounded", timeout=1800, cost=20)
